@@ -104,8 +104,13 @@ fn op_from(v: &Value) -> Op {
 }
 
 pub fn check_seq(ops: &[Op], srcs: &[Src], src_bytes: &[Vec<u8>], seed: u64, st: &mut Stats, order: u64) {
+    check_seq_io(ops, srcs, src_bytes, seed, st, order, 0, 0)
+}
+
+/// `sink_chunk` / `src_chunk`: the destination accepts / the source delivers at most that many bytes per call (0 = unlimited)
+pub fn check_seq_io(ops: &[Op], srcs: &[Src], src_bytes: &[Vec<u8>], seed: u64, st: &mut Stats, order: u64, sink_chunk: usize, src_chunk: usize) {
     st.evals += 1;
-    let case = || json!({"ops": ops.iter().map(op_json).collect::<Vec<_>>()});
+    let case = || json!({"ops": ops.iter().map(op_json).collect::<Vec<_>>(), "sink_chunk": sink_chunk, "src_chunk": src_chunk});
     let normal_content = content_class(2, seed);
     let mut calls = vec![];
     for (k, o) in ops.iter().enumerate() {
@@ -118,7 +123,7 @@ pub fn check_seq(ops: &[Op], srcs: &[Src], src_bytes: &[Vec<u8>], seed: u64, st:
         }
     }
     calls.push(Call::Finish);
-    let (res, bytes) = exec(&calls, src_bytes);
+    let (res, bytes) = if sink_chunk == 0 && src_chunk == 0 { exec(&calls, src_bytes) } else { exec_chunked(&calls, src_bytes, sink_chunk, src_chunk) };
     if let Some((c, r)) = calls.iter().zip(&res).find(|(_, r)| !r.is_ok()) {
         let kind = if r.is_panic() { "panic" } else { "call-failed" };
         st.class("CALL-FAILED");
@@ -213,7 +218,7 @@ fn replay(case: &Value, st: &mut Stats, seed: u64) {
     let srcs = sources(seed);
     let sb: Vec<Vec<u8>> = srcs.iter().map(|s| s.bytes.clone()).collect();
     let ops: Vec<Op> = case["ops"].as_array().map(|a| a.iter().map(op_from).collect()).unwrap_or_default();
-    check_seq(&ops, &srcs, &sb, seed, st, 0);
+    check_seq_io(&ops, &srcs, &sb, seed, st, 0, case["sink_chunk"].as_u64().unwrap_or(0) as usize, case["src_chunk"].as_u64().unwrap_or(0) as usize);
 }
 
 pub fn run(args: &Args) -> i32 {
@@ -230,11 +235,11 @@ pub fn run(args: &Args) -> i32 {
     ctx.rule = format!(
         "E-SEQ over interleavings: sources = 52 entries written by the crate (every method x {{min, default, max}} level x 5 content classes incl. empty and 70 001 bytes, varying permissions/timestamps/large_file, a directory and a symlink) and 9 entries of an independent builder \
          (data descriptors, opaque method 14, DOS made-by, no attributes, empty, forced ZIP64 fields, UTF-8 name with comment/extras, directory; behind a 30-byte prefix). Alphabet: an ordinary file, the raw copy of every source entry opened by by_index and by by_index_raw, renamed copies \
-         ({} operations; reduced {}). ALL sequences of length 1 and 2 over the full alphabet{}. Oracle: stored bytes, method, CRC, sizes, DOS words identical to the source (independent parser on both sides and the crate reader), permission bits equal, decoded content equal, neighbours intact, strict validation of the destination. \
+         ({} operations; reduced {}). ALL sequences of length 1 and 2 over the full alphabet{}; every single copy again with a destination that accepts and a source that delivers only 1 / 5 / 7 / 4095 / 4096 bytes per call. Oracle: stored bytes, method, CRC, sizes, DOS words identical to the source (independent parser on both sides and the crate reader), permission bits equal, decoded content equal, neighbours intact, strict validation of the destination. \
          distinct_nontrivial = distinct destination archives (hash set).",
         full.len(),
         red.len(),
-        if thorough { " and of length 3 over the reduced alphabet" } else { "" }
+        " and of length 3 over the reduced alphabet"
     );
     ctx.assume("the source's stored bytes and metadata are taken from the independent parser, not from the crate reader");
     ctx.uncovered("ZIP64-sized sources (covered by C08's sparse raw copy); encrypted sources (excluded by the statement)");
@@ -251,7 +256,26 @@ pub fn run(args: &Args) -> i32 {
     });
     ctx.stats.merge(s);
     ctx.stats.max_depth = 2;
-    if thorough {
+    // the same copies through a destination that accepts, and a source that delivers, only a few bytes per call
+    let io: [(usize, usize); 6] = [(1, 0), (7, 0), (4096, 0), (0, 1), (0, 4095), (5, 3)];
+    let m = red.len() as u64;
+    let red_r = &red;
+    let s = par_for(n * 6 + if thorough { m * m * 2 } else { 0 }, 4, |t, st| {
+        if t < n * 6 {
+            let (sc, rc) = io[(t % 6) as usize];
+            // 1-byte transfers only for sources that are not huge
+            check_seq_io(&[full_r[(t / 6) as usize].clone()], srcs_r, sb_r, seed, st, (2 << 40) + t, sc, rc);
+        } else {
+            let u = t - n * 6;
+            let (sc, rc) = [(7, 0), (0, 5)][(u % 2) as usize];
+            let u = u / 2;
+            check_seq_io(&[red_r[(u / m) as usize].clone(), red_r[(u % m) as usize].clone()], srcs_r, sb_r, seed, st, (3 << 40) + t, sc, rc);
+        }
+    });
+    ctx.stats.merge(s);
+    ctx.bound("chunked_io", json!("every length-1 sequence x (sink chunk, source chunk) in {(1,-),(7,-),(4096,-),(-,1),(-,4095),(5,3)}; thorough: every length-2 sequence over the reduced alphabet x {(7,-),(-,5)}"));
+    {
+        // length 3 over the reduced alphabet: both tiers
         let m = red.len() as u64;
         let red_r = &red;
         let s = par_for(m * m * m, 16, |t, st| {
